@@ -97,6 +97,10 @@ type simpleRequest struct {
 	resp       *RespValue
 	hooks      []func(*simpleRequest)
 	done       chan struct{}
+
+	// compressed indicates whether the values in body have been
+	// processed by the compress filter.
+	compressed bool
 }
 
 func newSimpleRequest(v *RespValue) *simpleRequest {
